@@ -13,7 +13,7 @@ import (
 )
 
 func init() {
-	register("C11", "Decides the structural basis of Relay pagination in graphql/schemabuilder/pagination.go: getConnection runs filter -> sort -> nodesToEdges -> paginateManually -> setCursors in that order on one `nodes` value (sort sees the filtered list, edges and totalCount are built from the same final list); in applyCursorsToAllEdges a cursor index is only ever compared with lengths of, and used to slice, the very slice value it was searched in (no stale length), after being tested != -1, and slicing is exclusive on both sides (edges[i+1:], edges[:i]); paginateManually cuts Edges[:first] exactly under len(Edges) > first and Edges[len-last:] under len(Edges) > last, setting hasNextPage/hasPrevPage there, rejects negative and both-set arguments before slicing, and seeds the flags from (before != nil && elemsAfter) / (after != nil && elemsBefore) with the arguments in the callee's order; sorting uses only sort.SliceStable with strict < (ascending) / > (descending) comparators whose accessor matches the table key, and getSort covers exactly the kinds supportedSort accepts; the index bookkeeping of the text filter and of applySort uses the induction value of the matching loop; setCursors reads the first and last edge. Not decided: the partition property itself over all lists and cursors, cursor uniqueness (depends on the data), behaviour of user filter/sort resolvers.", c11)
+	register("C11", "Decides the structural basis of Relay pagination in graphql/schemabuilder/pagination.go: getConnection runs filter -> sort -> nodesToEdges -> paginateManually -> setCursors in that order on one `nodes` value (sort sees the filtered list, edges and totalCount are built from the same final list); in applyCursorsToAllEdges a cursor index is only ever compared with lengths of, and used to slice, the very slice value it was searched in (no stale length), after being tested != -1, and slicing is exclusive on both sides (edges[i+1:], edges[:i]); paginateManually cuts Edges[:first] exactly under len(Edges) > first and Edges[len-last:] under len(Edges) > last, setting hasNextPage/hasPrevPage there, rejects negative and both-set arguments before slicing, and seeds the flags from (before != nil && elemsAfter) / (after != nil && elemsBefore) with the arguments in the callee's order; sorting uses only sort.SliceStable with strict < (ascending) / > (descending) comparators whose accessor matches the table key, and getSort covers exactly the kinds supportedSort accepts; the index bookkeeping of the text filter and of applySort uses the induction value of the matching loop; setCursors reads the first and last edge. applyTextFilter's decision table (which pass a filter field lands in, a pass with fields runs, an element survives iff a pass kept it, default tokens) is evaluated under every assignment of its predicates. Not decided: the partition property itself over all lists and cursors, cursor uniqueness (depends on the data), behaviour of user filter/sort resolvers.", c11)
 }
 
 const sbp = "graphql/schemabuilder"
